@@ -12,10 +12,13 @@ EXTENDS Integers, Sequences, FiniteSets, TLC, Json
 
 CONSTANTS MaxArgs, Emit
 
-Callees == {"rec1", "rec2", "rec3", "recv1", "recv0", "vm2", "pm2", "jf"}
+Callees == {"rec1", "rec2", "rec3", "recv1", "recv0", "vm2", "pm2", "jf", "sw"}
+\* sw is a user-supplied SafeWriter: it writes "{v}" for the piped value and each of its arguments, yields no value,
+\* is not a recorded call, and may only be the last stage
+IsWriter(c) == c = "sw"
 Arity(c)    == CASE c = "rec1" -> 1 [] c = "rec2" -> 2 [] c = "rec3" -> 3 [] c = "recv1" -> 1 [] c = "recv0" -> 0
-                 [] c = "vm2" -> 2 [] c = "pm2" -> 2 [] c = "jf" -> 0
-Variadic(c) == c \in {"recv1", "recv0", "jf"}          \* a jet.Func accepts any number of arguments
+                 [] c = "vm2" -> 2 [] c = "pm2" -> 2 [] c = "jf" -> 0 [] c = "sw" -> 0
+Variadic(c) == c \in {"recv1", "recv0", "jf", "sw"}          \* a jet.Func accepts any number of arguments
 Shapes == {"plain", "colon", "pipe", "pipecolon", "pipeparen", "slot", "slot2"}
 
 \* explicit arguments are the atoms a1, a2, ...; the piped value is x (or the previous stage's result)
@@ -46,6 +49,7 @@ ValidStage(first, c, shape, n, slot) ==
   /\ (shape = "pipe" => n = 0)
   /\ (shape \in {"slot", "slot2"} => (n >= 1 /\ slot \in 1..n)) /\ (shape \notin {"slot", "slot2"} => slot = 0)
   /\ (shape = "slot2" => n >= 2)
+  /\ (IsWriter(c) => (shape \notin {"slot", "slot2"} /\ (first => n >= 1)))
 
 Init == stages = <<>> /\ phase = "grow"
 AddStage(c, shape, n, slot) ==
@@ -58,24 +62,33 @@ Next == Finish \/ \E c \in Callees, sh \in Shapes, n \in 0..MaxArgs, sl \in 0..M
 Spec == Init /\ [][Next]_vars
 
 \* evaluation of the pipeline: call log and outcome
-RECURSIVE Run(_, _, _)
-Run(ss, piped, log) ==
-  IF ss = <<>> THEN [ok |-> TRUE, class |-> "", log |-> log, value |-> piped]
+RECURSIVE Braced(_)
+Braced(vs) == IF vs = <<>> THEN "" ELSE "{" \o Head(vs) \o "}" \o Braced(Tail(vs))
+\* Run(stages, piped value, call log, bytes written by writer stages, previous stage was a writer)
+RECURSIVE Run(_, _, _, _, _)
+Run(ss, piped, log, wr, wasw) ==
+  IF ss = <<>> THEN [ok |-> TRUE, class |-> "", log |-> log, value |-> wr \o (IF wasw THEN "" ELSE piped)]
   ELSE LET s == Head(ss)
            av == ArgVector(s.shape, s.n, s.slot, piped)
        IN IF s.shape = "slot2" THEN [ok |-> FALSE, class |-> "twoslots", log |-> <<>>, value |-> ""]   \* rejected when parsing
+          ELSE IF wasw THEN [ok |-> FALSE, class |-> "writerlast", log |-> log, value |-> ""]          \* a SafeWriter stage may only come last
+          ELSE IF IsWriter(s.c) THEN Run(Tail(ss), "", log, wr \o Braced(av), TRUE)
           ELSE IF ~CountOK(s.c, Len(av)) THEN [ok |-> FALSE, class |-> "argcount", log |-> log, value |-> ""]
-          ELSE Run(Tail(ss), ResultOf(s.c, av), Append(log, [c |-> s.c, args |-> av]))
+          ELSE Run(Tail(ss), ResultOf(s.c, av), Append(log, [c |-> s.c, args |-> av]), wr, FALSE)
 
 \* two pipe slots in one call are rejected when the template is parsed, wherever the call sits
 Outcome == IF \E i \in 1..Len(stages) : stages[i].shape = "slot2"
            THEN [ok |-> FALSE, class |-> "twoslots", log |-> <<>>, value |-> ""]
-           ELSE Run(stages, "", <<>>)
+           ELSE Run(stages, "", <<>>, "", FALSE)
 Done == phase = "done"
 
 \* every stage is called exactly once, in order, when the pipeline succeeds
-EachStageOnce == Done /\ Outcome.ok => /\ Len(Outcome.log) = Len(stages)
-                                        /\ \A i \in 1..Len(stages) : Outcome.log[i].c = stages[i].c
+Recorded == SelectSeq(stages, LAMBDA st : ~IsWriter(st.c))
+EachStageOnce == Done /\ Outcome.ok => /\ Len(Outcome.log) = Len(Recorded)
+                                        /\ \A i \in 1..Len(Recorded) : Outcome.log[i].c = Recorded[i].c
+\* a writer anywhere but in the last stage is an error
+WriterOnlyLast == Done => ((\E i \in 1..(Len(stages) - 1) : IsWriter(stages[i].c) /\ \A j \in 1..Len(stages) : stages[j].shape # "slot2")
+                           => (~Outcome.ok /\ Outcome.class \in {"writerlast", "argcount"}))
 \* all spellings of one call have one normal form
 FormsAgree == \A c \in Callees, n \in 1..MaxArgs :
                 /\ ArgVector("plain", n, 0, "x") = ArgVector("colon", n, 0, "x")
@@ -131,7 +144,7 @@ Builtins == <<
   [name |-> "array",     go |-> "sliceliteral",      args |-> <<"\"a\"", "iv7">>] >>
 
 \* three-stage pipelines only over the short forms (keeps the enumeration in the thousands)
-Bound == Len(stages) <= 2 \/ \A i \in 1..Len(stages) : stages[i].n <= 1 /\ stages[i].c \in {"rec1", "rec2", "jf", "vm2"}
+Bound == Len(stages) <= 2 \/ \A i \in 1..Len(stages) : stages[i].n <= 1 /\ stages[i].c \in {"rec1", "rec2", "jf", "vm2", "sw"}
 
 EmitVec == /\ (Emit /\ Done) => PrintT(<<"VEC", ToJson([stages |-> stages, outcome |-> Outcome])>>)
            /\ (Emit /\ stages = <<>> /\ phase = "grow") => PrintT(<<"VEC", ToJson([conv |-> ConvTable, builtins |-> Builtins])>>)
